@@ -75,6 +75,7 @@ type caAnswer struct {
 	Stats   []caStat  `json:"stats"`
 	Dropped []uint64  `json:"dropped"`
 	Code    int       `json:"code"`
+	Mutated bool      `json:"mutated"` // the query changed the lists the discovery handed out
 	Other   string    `json:"other,omitempty"` // anything in the answer the projection has no place for
 }
 
@@ -226,6 +227,18 @@ func runCoordAPICase(c *caCase) (caAnswer, map[string]int64) {
 			var id uint64
 			fmt.Sscan(d.DiscoveredLabels["__meta_id"], &id)
 			ans.Dropped = append(ans.Dropped, id)
+		}
+	}
+	// a query is a read: the lists it was given must be what they were
+	for _, j := range c.W.Jobs {
+		if len(active[j.Name]) != len(j.Active) {
+			ans.Mutated = true
+			continue
+		}
+		for i, id := range j.Active {
+			if active[j.Name][i] == nil || active[j.Name][i].ShardTarget.Hash != id {
+				ans.Mutated = true
+			}
 		}
 	}
 	// runtime info
